@@ -24,6 +24,7 @@ import (
 type pkt struct {
 	C, D int
 	Fin  bool
+	OOO  bool // sent beyond a hole (out of order)
 }
 
 type scen struct {
@@ -44,6 +45,7 @@ type harness struct {
 	ctl      *sched.Controller
 	owner    map[[2]int]int // which worker thread feeds (c,d)
 	isWorker map[int]bool
+	hole     map[[2]int]bool
 }
 
 // foreign: a callback for (c,d) that runs on a worker thread which does not feed (c,d) means that
@@ -163,9 +165,18 @@ func (s *stream) ReassemblyComplete(ac reassembly.AssemblerContext) bool {
 func mkPacket(h *harness, p pkt, isn uint32) (gopacket.Flow, *layers.TCP, int, int) {
 	ct := h.cont(p.C, p.D)
 	h.mu.Lock()
-	lo := h.next[[2]int{p.C, p.D}]
+	k := [2]int{p.C, p.D}
+	lo := h.next[k]
+	if p.OOO {
+		lo += 3 // leave a hole; the next in-order packet fills it
+		h.hole[k] = true
+	} else if h.hole[k] {
+		h.hole[k] = false
+		h.next[k] = lo + 6
+	} else {
+		h.next[k] = lo + 3
+	}
 	hi := lo + 3
-	h.next[[2]int{p.C, p.D}] = hi
 	h.mu.Unlock()
 	tcp := &layers.TCP{SrcPort: layers.TCPPort(1000 + p.C), DstPort: 80, ACK: true, FIN: p.Fin}
 	nf, _ := gopacket.FlowFromEndpoints(layers.NewIPEndpoint([]byte{1, 2, 3, byte(p.C)}), layers.NewIPEndpoint([]byte{5, 6, 7, 8}))
@@ -184,7 +195,11 @@ func parseProgs(raw [][][]interface{}) [][]pkt {
 	for _, th := range raw {
 		var ps []pkt
 		for _, e := range th {
-			ps = append(ps, pkt{C: int(e[0].(float64)), D: int(e[1].(float64)), Fin: e[2].(bool)})
+			q := pkt{C: int(e[0].(float64)), D: int(e[1].(float64)), Fin: e[2].(bool)}
+			if len(e) > 3 {
+				q.OOO = e[3].(bool)
+			}
+			ps = append(ps, q)
 		}
 		out = append(out, ps)
 	}
@@ -193,7 +208,7 @@ func parseProgs(raw [][][]interface{}) [][]pkt {
 
 // runScenario: controlled=true replays s.Sched with the cooperative scheduler, then free-runs the rest.
 func runScenario(tr *vh.Trace, sc int, s scen, controlled bool) {
-	h := &harness{sc: sc, content: map[[2]int]*asmc.Content{}, next: map[[2]int]int{}, owner: map[[2]int]int{}, isWorker: map[int]bool{}}
+	h := &harness{sc: sc, content: map[[2]int]*asmc.Content{}, next: map[[2]int]int{}, owner: map[[2]int]int{}, isWorker: map[int]bool{}, hole: map[[2]int]bool{}}
 	h.emit(vh.M{"op": "cfg", "asm": "reassembly", "limit": 0, "controlled": controlled})
 	pool := reassembly.NewStreamPool(h)
 	progs := parseProgs(s.Progs)
@@ -225,7 +240,11 @@ func runScenario(tr *vh.Trace, sc int, s scen, controlled bool) {
 			for i, p := range prog {
 				if p.C == 0 {
 					h.emit(vh.M{"op": "flushb", "kind": "all", "t": 0, "concurrent": true})
-					asm.FlushAll()
+					if p.D == 1 {
+						asm.FlushCloseOlderThan(time.Unix(5000, 0))
+					} else {
+						asm.FlushAll()
+					}
 					h.emit(vh.M{"op": "flushe", "kind": "other", "t": 0})
 				} else {
 					nf, tcp, _, _ := mkPacket(h, p, 5000)
